@@ -590,6 +590,65 @@ pub fn run_real_timer(out: &mut Out, cfg: &Cfg, slow: usize) {
             }
         }
     }
+    // a timer whose handle was dropped without cancel_timer() (the documentation's own example does that) belongs to no
+    // query: when it expires during the next query's search it must not stop it (seeded change C23r10: only cancel_timer()
+    // retired a timer generation)
+    if ok {
+        let mut rules = vec![];
+        for i in 0..12 { rules.push(Rule{head: scomplex!(atom!("gen"), SInteger(i)), body: Goal::Nil}); }
+        let names = ["$A", "$B", "$C", "$D", "$E"];
+        let mut gs: Vec<Goal> = vec![];
+        for n in names { gs.push(Goal::ComplexGoal(scomplex!(atom!("gen"), logic_var!(n)))); }
+        gs.push(Goal::BuiltInGoal(BuiltInPredicate::new("fail".into(), None)));
+        rules.push(Rule{head: scomplex!(atom!("busy")), body: Goal::OperatorGoal(Operator::And(gs))});
+        let mut kb = KnowledgeBase::new(); add_rules(&mut kb, rules);
+        for round in 0..3 {
+            start_query();
+            { let _dropped = start_query_timer(40); }
+            let q = Rc::new(make_query(vec![atom!("busy")])); let sn = make_base_node(Rc::clone(&q), &kb);
+            let t0 = std::time::Instant::now();
+            let v = solve_all(sn);
+            let ms = t0.elapsed().as_millis();
+            out.cap.take();
+            start_query();
+            out.stat("dropped_timer_probes", 1);
+            if ms < 50 { out.stat("dropped_timer_probe_search_was_shorter_than_the_stale_timer", 1); }
+            let timed = v.last().map(|x| x == TIMEOUT_MSG).unwrap_or(false);
+            if timed && ms < 700 {
+                ok = false;
+                msg = format!("a timer started earlier and dropped without cancel_timer() stopped the next query: a search of {} ms (round {}) was reported as timed out", ms, round);
+                break;
+            }
+        }
+    }
+    // the knowledge base changes between queries: rules added in place, then another knowledge base in the same variable
+    // (so at the same address). Each query must see the clauses that are there NOW (seeded change C22r10: a cache of the
+    // last clause count, keyed by address and predicate)
+    if ok {
+        let ask = |kb: &KnowledgeBase| -> Result<Vec<String>, ()> {
+            catch_unwind(AssertUnwindSafe(|| { let q = Rc::new(make_query(vec![atom!("pp"), logic_var!("$X")])); let sn = make_base_node(Rc::clone(&q), kb); solve_all(sn) })).map_err(|_| ())
+        };
+        let fact = |i: i64| Rule{head: scomplex!(atom!("pp"), SInteger(i)), body: Goal::Nil};
+        start_query();
+        let mut kb = KnowledgeBase::new();
+        add_rules(&mut kb, vec![fact(1), fact(2)]);
+        let a1 = ask(&kb);
+        add_rules(&mut kb, vec![fact(3)]);
+        let a2 = ask(&kb);
+        kb = KnowledgeBase::new();
+        add_rules(&mut kb, vec![fact(7)]);
+        let a3 = ask(&kb);
+        out.cap.take();
+        start_query();
+        out.stat("changed_knowledge_base_probes", 3);
+        let want1: Vec<String> = vec!["$X = 1".into(), "$X = 2".into()];
+        let want2: Vec<String> = vec!["$X = 1".into(), "$X = 2".into(), "$X = 3".into()];
+        let want3: Vec<String> = vec!["$X = 7".into()];
+        if a1 != Ok(want1) || a2 != Ok(want2.clone()) || a3 != Ok(want3.clone()) {
+            ok = false;
+            msg = format!("the answers of a query depended on the query asked before it: after a rule was added the query gave {:?} (expected {:?}), and against a new knowledge base {:?} (expected {:?}); Err = panic", a2, want2, a3, want3);
+        }
+    }
     out.impl_line(id, "real");
     if cfg.want("C23") { out.oracle(id, "C23", ok, &msg); }
     if cfg.want("C22") { out.oracle(id, "C22", ok, &msg); }
